@@ -2727,6 +2727,15 @@ fn selection_case(
 		);
 	}
 	if a.valid && matches!(out, Outcome::Accept) {
+		if chain == ChainTypes::Mainnet && eb == 29 {
+			w.shared.sample(
+				"selection",
+				json!({"workload": "selection", "call": "global::create_pow_context(height, edge_bits, 42, 10) + set_header_nonce + verify",
+					"chain": chain_name(chain), "height": height, "header_version": expected_version(chain, height), "edge_bits": eb,
+					"scheduled_variant": v.name(), "class": class, "header": "80 zero bytes", "header_nonce": hnonce, "nonces": nonces,
+					"reference": "cycle", "verify": "Ok"}),
+			);
+		}
 		st.bump(&format!("selection.{}.{}.vector_accepted_under_scheduled_variant", chain_name(chain), v.name()), 1);
 	} else if !a.valid && matches!(out, Outcome::Reject) {
 		st.bump(&format!("selection.{}.rejected_under_scheduled_variant", chain_name(chain)), 1);
@@ -2851,12 +2860,6 @@ fn selection_vectors_job(w: &Worker) {
 		let hdr = p.bytes(80);
 		selection_case(w, chain, h, eb, &hdr, Some(p.next_u32()), &sorted(m), "random_proof_real_size", &mut st);
 	}
-	w.shared.sample(
-		"selection",
-		json!({"workload": "selection", "what": "published cuckarood29 vector (header 80 zero bytes, nonce 15) through global::create_pow_context on Mainnet",
-			"height 262079 (v1, cuckaroo)": "rejected", "height 262080 (v2, cuckarood)": "accepted", "height 524160 (v3, cuckaroom)": "rejected",
-			"note": "verdicts as required by the reference under the scheduled variant; any deviation is a violation"}),
-	);
 	st.flush(w.run());
 }
 
